@@ -533,42 +533,27 @@ Proof.
 Qed.
 
 (* ================================================================ 10. the code as it stands *)
-(* where the code returns a value for different atoms it is the repaired model's value *)
-Theorem replace_code_agrees : forall E f src tgt p g, src <> tgt ->
-  f_replace_code E f src tgt p = Some g -> g = f_replace E f src tgt p.
+(* after the two repairs the code is the model, for every input *)
+Theorem replace_code_agrees : forall E f src tgt p,
+  f_replace_code E f src tgt p = f_replace E f src tgt p.
 Proof.
-  intros E f src tgt p g Hne H. unfold f_replace_code, f_replace in *.
-  rewrite (atom_eqb_neq _ _ Hne). destruct (dget (f_atoms f) src).
-  - destruct (f_density f); [|discriminate]. inversion H. reflexivity.
-  - inversion H. reflexivity.
+  intros E f src tgt p. unfold f_replace_code, f_replace.
+  destruct (dget (f_atoms f) src); [|reflexivity].
+  destruct (atom_eqb src tgt); reflexivity.
 Qed.
-
-(* ... but it raises when the density is unknown and the source is present: on the code the
-   statement "an unknown density stays unknown" fails *)
-Theorem replace_code_unknown_raises : forall E f src tgt p ns,
-  f_density f = None -> dget (f_atoms f) src = Some ns -> f_replace_code E f src tgt p = None.
-Proof. intros E f src tgt p ns Hd Hs. unfold f_replace_code. rewrite Hs, Hd. reflexivity. Qed.
 
 Definition E_unit : aenv := mkEnv (fun _ => 1) (fun _ => 1) (fun _ => None) (sym_of Gen.ElementBase.element_base).
 Definition water (rho : option Q) : fobj :=
   mkF [(2, FAtom (mkAtom 1 0 0)); (1, FAtom (mkAtom 8 0 0))] KTuple rho None.
 
-(* witness: H2O with no density, H -> D *)
-Theorem replace_unknown_stays_unknown_code_refuted :
-  exists E f src tgt p, f_density f = None /\ f_replace_code E f src tgt p = None /\
-    f_density (f_replace E f src tgt p) = None.
-Proof.
-  exists E_unit, (water None), (mkAtom 1 0 0), (mkAtom 1 2 0), 1. repeat split.
-Qed.
-
-(* witness: H2O @ 1 with H replaced by H loses its hydrogen on the code *)
-Theorem replace_same_atom_code_refuted :
-  exists E f a p g, f_replace_code E f a a p = Some g /\
-    ~ cnt_s a (f_struct g) == cnt_s a (f_struct f).
-Proof.
-  exists E_unit, (water (Some 1)), (mkAtom 1 0 0), 1. eexists. split; [reflexivity|].
-  vm_compute. discriminate.
-Qed.
+(* the inputs on which the code used to fail (TypeError on H2O without density, H -> D; hydrogen lost on
+   H2O@1, H -> H) now give what the property asks *)
+Theorem replace_former_witnesses :
+  f_density (f_replace_code E_unit (water None) (mkAtom 1 0 0) (mkAtom 1 2 0) 1) = None /\
+  cnt_s (mkAtom 1 2 0) (f_struct (f_replace_code E_unit (water None) (mkAtom 1 0 0) (mkAtom 1 2 0) 1)) == 2 /\
+  cnt_s (mkAtom 1 0 0) (f_struct (f_replace_code E_unit (water (Some 1)) (mkAtom 1 0 0) (mkAtom 1 0 0) 1)) == 2 /\
+  f_density (f_replace_code E_unit (water (Some 1)) (mkAtom 1 0 0) (mkAtom 1 0 0) 1) = Some 1.
+Proof. repeat split; vm_compute; reflexivity. Qed.
 
 (* ================================================================ 11. positivity: the result has a mass *)
 Lemma dweight_nonneg : forall w d, (forall a c, In (a, c) d -> 0 <= w a * c) -> 0 <= dweight w d.
